@@ -11,6 +11,7 @@ CONSTANTS
   MaxLocal = 2
   MaxInbound = 1
   MaxTime = 660
+  Faults = FALSE
   UseFourth = TRUE
   SetIdxs = {0, 1, 2, 3}
   TimeSteps = {}
